@@ -13,7 +13,7 @@ import SynthVerif.Model.Ribbon
 namespace Shape
 open Gen.Shape
 
-theorem ribbonController : typesRibbonController = ["HistoryBuffer<f32,BUFFER_CAPACITY>", "bool", "bool", "bool",
+theorem ribbonController : typesRibbonController = ["HistoryBuffer<f32,N>", "bool", "bool", "bool",
     "f32", "f32", "f32", "usize", "usize", "usize", "usize"] := rfl
 theorem ribbonNoStatics : statics = [] := rfl
 example (r : Ribbon) : r = ⟨r.boundary, r.errorConst, r.current, r.pressing, r.justPressed, r.justReleased, r.buff,
